@@ -214,6 +214,101 @@ impl Check for Steps {
     }
 }
 
+// ------------------------------------------------------------------ tolerance exactly at the estimate
+/// The accept / reject decision of the first checked step flips at one floating-point tolerance: the embedded estimate
+/// of that step. The flip is located by bisection on the bit pattern of the tolerance, and the runs on both sides of it
+/// (and two neighbours) are judged like any other path. At the upper side the tolerance EQUALS the estimate, the one
+/// input on which `<=` and `<` disagree.
+#[derive(Serialize, Deserialize, Clone, Debug)]
+pub struct EdgePt {
+    pub solver: Solver,
+    pub rhs: String,
+    pub dtmax: f64,
+}
+pub struct ToleranceEdge;
+fn first_gap(p: &StepPt) -> Option<f64> {
+    let mut o = Outcome::new();
+    let t0 = p.t0.unwrap_or(0.2);
+    let _ = run_and_judge(&mut o, p, 200_000)?;
+    // the first yielded time is recovered from a second, cheap look at the path: run_and_judge keeps only the verdicts,
+    // so the path is solved once more here (same deterministic run)
+    let cfg = Cfg { tol: p.tol, dtmin: 1e-9, dtmax: p.dtmax, t0, t1: t0 + p.len };
+    let lim = Limits { max_calls: 200_000, max_items: 100_000, extra_next: 0 };
+    if p.rhs.starts_with('c') {
+        let cf: fn(f64, &[C64]) -> Vec<C64> = if p.rhs == "cphase2" { cphase } else { cgeneric };
+        let rhs: Rhs<C64> = Rc::new(move |t, z| Ok(cf(t, z)));
+        let out = solve::<C64>(p.solver, DimMode::Static, &cfg, &[C64::new(0.7, -0.4), C64::new(0.2, 0.5)], rhs, &lim);
+        out.items.first().map(|x| x.0 - t0)
+    } else {
+        let (f, y0) = rhs_of(&p.rhs);
+        let rhs: Rhs<f64> = Rc::new(move |t, y| Ok(f(t, y)));
+        let out = solve::<f64>(p.solver, DimMode::Static, &cfg, &y0, rhs, &lim);
+        out.items.first().map(|x| x.0 - t0)
+    }
+}
+impl Check for ToleranceEdge {
+    type P = EdgePt;
+    fn name(&self) -> &'static str {
+        "tolerance-at-the-estimate"
+    }
+    fn rule(&self) -> String {
+        "6 adaptive solvers x 2 right-hand sides x 2 maximum steps: bisection on the bit pattern of the tolerance for the two adjacent floating-point tolerances between which the first checked step changes from rejected to accepted; the four paths at those tolerances and their outer neighbours are judged step by step; signature = (solver, whether the flip was found, classes of the four verdicts)".into()
+    }
+    fn points(&self, _t: Tier) -> Vec<EdgePt> {
+        let mut v = vec![];
+        for &solver in &ADAPTIVE {
+            for rhs in ["generic2", "cgeneric2"] {
+                for &dtmax in &[0.2, 0.05] {
+                    v.push(EdgePt { solver, rhs: rhs.to_string(), dtmax });
+                }
+            }
+        }
+        v
+    }
+    fn run(&self, p: &EdgePt) -> Outcome {
+        let mut o = Outcome::new();
+        let mk = |tol: f64| StepPt { solver: p.solver, rhs: p.rhs.clone(), tol, dtmax: p.dtmax, len: 0.9, dynamic: false, t0: None, dtmin_frac: None, reconfigured: false };
+        // full first gap = the gap at a huge tolerance
+        let full = match first_gap(&mk(1e3)) {
+            Some(g) => g,
+            None => {
+                o.sig = format!("{}|no-path-at-huge-tolerance", p.solver.name());
+                return o;
+            }
+        };
+        let accepted = |tol: f64| first_gap(&mk(tol)).map_or(false, |g| (g - full).abs() <= 1e-12 * full.abs());
+        let (mut lo, mut hi) = (1e-14f64.to_bits(), 1e3f64.to_bits());
+        let mut runs = 2u64;
+        if accepted(f64::from_bits(lo)) {
+            o.sig = format!("{}|no-flip", p.solver.name());
+            return o;
+        }
+        while hi - lo > 1 {
+            let mid = lo + (hi - lo) / 2;
+            runs += 1;
+            if accepted(f64::from_bits(mid)) { hi = mid } else { lo = mid }
+        }
+        o.executions = runs + 4;
+        o.metric("flip-tolerance", f64::from_bits(hi));
+        let mut classes = String::new();
+        for bits in [lo - 1, lo, hi, hi + 1] {
+            let tol = f64::from_bits(bits);
+            let mut oo = Outcome::new();
+            let sp = mk(tol);
+            run_and_judge(&mut oo, &sp, 3_000_000);
+            classes.push(if oo.viols.is_empty() { '.' } else { '!' });
+            for v in oo.viols.into_iter().take(1) {
+                o.viol(&v.subject, &v.clause, format!("tolerance {:e} ({} the flip at {:e}): {}", tol, if bits <= lo { "below" } else { "at / above" }, f64::from_bits(hi), v.detail));
+            }
+        }
+        o.sig = format!("{}|flip-found|{}", p.solver.name(), classes);
+        o
+    }
+    fn required(&self, _t: Tier) -> Vec<&'static str> {
+        vec!["rk45|flip-found", "rk23|flip-found", "adams5|flip-found", "adams3|flip-found", "bdf6|flip-found", "bdf2|flip-found"]
+    }
+}
+
 pub fn main(mut r: Report) -> ! {
     r.assumptions = vec![
         "reference formulas: Fehlberg 4(5), Bogacki-Shampine 3(2), classical RK4, AB4/AM4 and AB2/AM2, BDF6 and BDF2, transcribed from the literature in refstep.rs".into(),
@@ -221,5 +316,6 @@ pub fn main(mut r: Report) -> ! {
         "Adams hypothesis set capped at 64 (cap reported in the signature)".into(),
     ];
     r.run(&Steps);
+    r.run(&ToleranceEdge);
     r.finish()
 }
